@@ -7,7 +7,7 @@ use xeh::prelude::*;
 
 pub const DEF: PropDef = PropDef {
     id: "C15",
-    rule: "programs = control-flow backbone + snippets covering builders, foreach, let, late words, cursor reads, tags, collection words, meta blocks, emit, and failing tails (run-time, build-time, in a meta block), \
+    rule: "programs = control-flow backbone + snippets covering builders, foreach, let, late words, cursor reads, tags, collection words, meta blocks, emit, and failing tails (run-time, build-time, in a meta block); 1 in 6 instead a straight-line program over the whole native dictionary (the typed table of C13), \
 submitted to an idle interpreter that already holds a generated prelude; six drives on clones: eval / compile+run / compile+next()* x recording off/on. All six must agree on the result value, the error location \
 (token range and source name), the dump sections ip, data stack (with hidden base), return stack with locals, loops, builder marks, heap, all variables and stdout; mode/nesting/pending-flow bookkeeping is compared only for \
 succeeding programs (what a failed submission leaves there is C10's subject). Non-trivial = >=10 instructions executed and >=3 distinct feature kinds; distinct = hash of prelude+source",
@@ -173,6 +173,10 @@ pub fn case(ch: &mut Choices, ctx: &CaseCtx) -> CaseOut {
         p.source = toks.join(" ");
         p.features = vec!["token-soup"];
     }
+    else if ch.chance(1, 6) {
+        // every native word with arguments that make it succeed (the typed table of C13), a binary input open
+        p = ext::dictionary(ch, if big { 10 } else { 5 });
+    }
     let mut base = xs::fresh();
     base.intercept_output(true).unwrap();
     base.set_insn_limit(Some(INSN_LIMIT)).unwrap();
@@ -230,7 +234,7 @@ pub fn case(ch: &mut Choices, ctx: &CaseCtx) -> CaseOut {
         }
         let kinds = p.features.len();
         let first = &obs[0].1[0];
-        out.nontrivial = (first.insns >= 10 && kinds >= 3) || (p.features.contains(&"token-soup") && first.insns >= 3) || two;
+        out.nontrivial = (first.insns >= 10 && kinds >= 3) || (p.features.contains(&"token-soup") && first.insns >= 3) || (p.features.contains(&"dictionary-words") && first.insns >= 6) || two;
         let failing_build = obs.iter().any(|(_, o)| !o[0].built);
         let failing = first.result != "Ok";
         if failing_build {
